@@ -91,6 +91,16 @@ theorem c40_err (lhs rhs : Obj) (sel : Sel) :
     | error e => exact ⟨e, rfl⟩
     | ok ps => exact absurd hf (okObj lhs none none rhs sel false false [] [] ps h c' hreach)
 
+-- OBLIGATION c40_nested_proxy : nested ArrayProxies arr[i]..[k] of any depth: the object built for them is an ArrayProxy over ALL views below it (the recursive flatten_elems), and the signal it drives / reads at run time is the view selected by the index values
+theorem c40_nested_proxy (t : PTree) (idxs : List Nat) (tmpl o : Obj) (h : nestedProxy t idxs tmpl = some o) :
+    ∃ s i, t.select idxs = some s ∧ s ∈ t.leaves ∧ o = .proxy i t.leaves tmpl ∧ t.leaves[i]? = some s := by
+  unfold nestedProxy at h
+  cases hs : t.select idxs with
+  | none => simp [hs] at h
+  | some s =>
+    simp only [hs, Option.map_some, Option.some.injEq] at h
+    exact ⟨s, _, rfl, select_mem t idxs s hs, h.symm, getElem?_idxOf_mem _ s (select_mem t idxs s hs)⟩
+
 /-- a struct view assigned from a larger struct view with an iterable selection -/
 def exL : Obj := ofLayout (.struct (.cons "x" (.leaf 2 false) (.cons "y" (.leaf 1 false) .nil))) 0 0 true
 def exR : Obj := ofLayout (.struct (.cons "x" (.leaf 2 false) (.cons "y" (.leaf 1 false) (.cons "z" (.leaf 3 true) .nil)))) 1 0 true
@@ -117,3 +127,4 @@ end TxV.Assign
 #print axioms TxV.Assign.c40_shapes_partial
 #print axioms TxV.Assign.c40_select
 #print axioms TxV.Assign.c40_err
+#print axioms TxV.Assign.c40_nested_proxy
